@@ -507,3 +507,32 @@ def r09f(ctx):
         else:
             ctx.bad(cid, mod.loc(forwards[0]), f"{fname} hands **{kw} to the expression without looking at the values: a Scalar / collection passed by keyword is copied into every task as an object instead of becoming an operand")
     ctx.floor("user-function entry points forwarding **kwargs", n, 2)
+
+
+@rule(
+    "R09g",
+    ["C09", "C02"],
+    """THE LEAVES OF A HAND-BUILT REDUCTION TREE ARE DEFINED WITHOUT A GAP: prefix_reduction / suffix_reduction (merge_asof) pad the n
+    partition leaves to the next power of two N. The leaf keys `(name, i, 1, 0)` are written by two consecutive loops - `range(n)` for the
+    data and `range(<start>, N)` for the identity padding - and the inner levels read every leaf 0..N-1. The padding must start exactly
+    where the data stops (`<start>` is the data loop's bound); `range(n + 1, N)` leaves leaf n undefined and the graph refers to a key
+    nobody produces (KeyError at compute time whenever n is not a power of two).""",
+)
+def r09g(ctx):
+    model = ctx.model
+    n = 0
+    for fname in ("prefix_reduction", "suffix_reduction"):
+        mod, fn = model.func("_merge_asof", fname)
+        loops = [st for st in fn.body if isinstance(st, ast.For) and isinstance(st.iter, ast.Call) and dotted(st.iter.func) == "range" and any(isinstance(w, ast.Assign) and isinstance(w.targets[0], ast.Subscript) and ast.unparse(w.targets[0].slice).endswith(", 1, 0)") for w in st.body)]
+        if len(loops) < 2:
+            raise AnalysisError(f"anchor vanished: the two leaf loops of {fname}")
+        data, pad = loops[0], loops[1]
+        n += 1
+        cid = f"_merge_asof.{fname}:leaves-contiguous"
+        stop = ast.unparse(data.iter.args[-1]) if len(data.iter.args) in (1, 2) else None
+        start = ast.unparse(pad.iter.args[0]) if len(pad.iter.args) == 2 else "0"
+        if stop is not None and start == stop and (len(data.iter.args) == 1 or ast.unparse(data.iter.args[0]) == "0"):
+            ctx.ok(cid, mod.loc(pad), f"data leaves range({stop}), padding range({start}, ...)")
+        else:
+            ctx.bad(cid, mod.loc(pad), f"the data leaves are written for `{ast.unparse(data.iter)}` and the padding for `{ast.unparse(pad.iter)}`: the two ranges do not meet, so a leaf key `(name, i, 1, 0)` that the next level reads is never defined (or defined twice) - merge_asof on a partition count that is not a power of two fails with a missing key / combines the wrong suffix")
+    ctx.floor("hand-built reduction trees", n, 2)
